@@ -115,6 +115,13 @@ def main():
         fs = '\n'.join(f'  F{i} {["uint64", "string", "float64", "bool", "int64"][i % 5]}{" optional" if i < nopt and kind == "struct" else ""}' for i in range(n))
         return (name, f'package verif.{name}\nstruct R root {{\n  W W\n  X uint64\n}}\n{kind} W {{\n{fs}\n}}\n')
     schemas += [wide('wide40opt40', 40, 40), wide('wide57', 57, 3), wide('wide64', 64, 0), wide('wide33opt32', 33, 32), wide('oneof63', 63, 0, 'oneof')]
+    # a oneof whose alternative is a dictionary struct, next to ordinary alternatives (records handed over
+    # with CopyFrom from frozen values exercise the shared-pointer paths of the oneof)
+    schemas.append(('oneof-dict-alt', 'package verif.oda\nstruct R root {\n  E Ev\n  N uint64\n  G Ev optional\n}\noneof Ev {\n  H Host\n  K uint64\n  S string\n}\nstruct Host dict(Host) {\n  A string\n  B string\n  C []int64\n}\n'))
+    # schemas the parser refuses today; should a change make it accept them they are in scope like any other
+    schemas.append(('mayreject-root-and-dict', 'package verif.rd\nstruct A root dict(A) {\n  X uint64\n  Y string\n}\n'))
+    schemas.append(('mayreject-dict-and-root', 'package verif.dr\nstruct A dict(A) root {\n  X uint64\n  Y string\n}\n'))
+    schemas.append(('mayreject-oneof-root', 'package verif.orr\noneof A root {\n  X uint64\n  Y string\n}\n'))
     # probes of known findings: schemas the compiler accepts whose generated code does not compile
     schemas.append(('probe-struct-dict-name', 'package t.a\nstruct A root {\n X B\n}\nstruct B dict(D) {\n F uint64\n}\n'))
     schemas.append(('probe-dict-struct-optional-recursion', 'package t.c\nstruct A root {\n X B\n}\nstruct B dict(B) {\n F uint64\n N B optional\n}\n'))
@@ -134,7 +141,7 @@ def main():
             if r['stage'] == 'own-parser':
                 counters['skipped_own_parser'] += 1
                 continue
-            if r['stage'] == 'stefc-run' and name.startswith('random'):
+            if r['stage'] == 'stefc-run' and (name.startswith('random') or name.startswith('mayreject')):
                 # the compiler rejected a random schema: not a violation (schema not accepted)
                 counters['random_rejected'] += 1
                 stats['rejected_reason_' + r['log'].strip().splitlines()[-1][:40]] += 1
@@ -155,14 +162,39 @@ def main():
         h = streamlib.Harness(r['key'], sch, r['bin'], r['sjson'])
         cases = []
         for root in sch['roots']:
-            for j in range(2 if tier == 'quick' else 6):
+            for j in range((2 if tier == 'quick' else 6) * (4 if name == 'oneof-dict-alt' else 1)):
                 opts = streamlib.gen_opts(rng)
                 ops = streamlib.gen_history(sch, root, rng, 2 + rng.below(14))
                 fz = rng.chance(1, 2)
                 for op in ops:
                     if op['op'] == 'set':
                         op['freeze'] = fz
-                cases.append(dict(id=f'{name}:{root}:{j}', root=root, opts=opts, ops=ops))
+                cases.append(dict(id=f'{name}:{root}:{j}', root=root, opts=opts, ops=ops, transcode=rng.choice(['', 'all', 'odd', 'thirds'])))
+        if name == 'oneof-dict-alt':
+            # dictionary structs inside the oneof whose fields move between default and non-default values,
+            # handed over as frozen values with CopyFrom / Set<Field>, with other alternatives in between
+            H = lambda a, b, c: [1, [a, b, c]]
+            seqv = [H('61', '62', ['1']), H('63', '', []), H('', '64', ['2', '3']), [2, '5'], H('', '', []), H('65', '66', ['4']),
+                    H('65', '', ['4']), [3, '7a'], H('65', '66', []), H('61', '62', ['1'])]
+            for cp in (True, False):
+                for fz in (True, False):
+                    ops = []
+                    for k, ev in enumerate(seqv):
+                        ops += [{'op': 'set', 'v': [ev, str(k), ev if k % 3 == 0 else None], 'freeze': fz, 'copy': cp}, {'op': 'w'}]
+                    ops.append({'op': 'f'})
+                    cases.append(dict(id=f'{name}:R:seq-{"copy" if cp else "set"}-{"frozen" if fz else "plain"}', root='R', opts=streamlib.gen_opts(rng), ops=ops, transcode=['odd', 'thirds'][int(fz)]))
+        if name == 'oneof-dict-alt':
+            # ... and values that change ONE field at a time, re-written by a filtering transcoder: the mask a
+            # decoded value carries is relative to its predecessor in the FIRST stream, which the second
+            # writer may never have seen
+            seq2 = [H('61', '78', []), H('62', '78', []), H('63', '79', []), H('63', '78', []), H('64', '78', ['1']), H('64', '7a', ['1']),
+                    H('65', '7a', ['1']), H('65', '7a', []), H('61', '7a', []), H('61', '78', [])]
+            for tc in ('odd', 'even', 'thirds', 'all'):
+                ops = []
+                for k, ev in enumerate(seq2):
+                    ops += [{'op': 'set', 'v': [ev, str(k), None], 'freeze': False}, {'op': 'w'}]
+                ops.append({'op': 'f'})
+                cases.append(dict(id=f'{name}:R:onefield-{tc}', root='R', opts=dict(compression=0, maxframe=0, maxdict=0, flags=0, descriptor=False, userdata={}), ops=ops, transcode=tc))
         nhist += len(cases)
         try:
             outs, stderr, rc = h.run_go(cases, timeout=300)
